@@ -222,8 +222,8 @@ PLAN_IMPORTS = ['Base.Prelude', 'Model.ChargeL', 'Model.Leg', 'Model.Factor', 'M
                 'Model.FactorCase2']
 
 
-def run_chunks(kind, cases, config='py'):
-    n = common.NPROC
+def run_chunks(kind, cases, config='py', n=None):
+    n = n or common.NPROC
     chunks = [cases[i::n] for i in range(n)]
     res = common.run_impl_parallel('c05_impl.py', [{'kind': kind, 'cases': ch} for ch in chunks if ch], config=config, optimize0=True)
     out = [None] * len(cases)
@@ -280,7 +280,7 @@ def main(ctx):
         t_stream = time.time()
         ctx.cov.setdefault('timings_s', {})[kind] = None
         cases = [c['case'] for c in common.corpus_cases('C05') if c.get('stream') == kind] + cases
-        res, err = run_chunks(kind, cases)
+        res, err = run_chunks(kind, cases, n=4 if kind == 'plan' else None)     # plan cases are tiny: few interpreter starts
         if err:
             ctx.fail('correspondence', '%s runner failed: %s' % (kind, err[-600:]), None)
             continue
